@@ -42,6 +42,7 @@ CHECK_DEADLOCK FALSE
 INV = "GhostOK MapOK SnapshotFrozen SnapshotFresh CompactEqualsStateAtReportedTs StoredRootOK"
 PROPS = "PROPERTIES SnapshotImmutable RejectKeeps FlushKeeps ReopenKeeps"
 NSCRIPTS = 5
+NMATRIX = 3
 
 
 def cfg(**kw):
@@ -78,6 +79,11 @@ def run(chk, args):
     jobs.append(("mc-bulk-code", cfg(ops=c_ops, bulk=2, tch="{0, 2, 99}", snaps=1, readers=0, decision="code", quirk="TRUE"), 1, 1200, ()))
     jobs.append(("scripts", cfg(ops=20, bulk=2, tch="{0, 1, 2}", snaps=1, readers=1, fail=2, decision="current",
                                 readops="TRUE", script=99, inv=INV.replace(" StoredRootOK", "") + " Emit", props="", view=""), 1, 1200, ()))
+    # reader matrix: three small trees, every (prefix, seek, end) over all strings of up to two symbols x inclusive flags x
+    # order (plus IncludeHistory and offsets on a reduced probe set) and every HistoryReader spec
+    jobs.append(("matrix", cfg(keys="KeysM", probes="ProbesAll", ops=20, bulk=3, tch="{0}", snaps=1, readers=1, fail=1,
+                               decision="current", script=98, inv="GhostOK MapOK SnapshotFrozen SnapshotFresh Emit", props="", view=""),
+                 3, 1800, ()))
     nsim, per = (8, 400) if thorough else (4, 64)
     depth = 20
     for i in range(nsim):
@@ -97,9 +103,9 @@ def run(chk, args):
             continue
         vlib.tlc_must_pass(res, "TBTree[%s]" % name)
         chk.add_tlc(res, "TBTree " + name)
-        if name == "scripts" or name.startswith("sim-"):
+        if name in ("scripts", "matrix") or name.startswith("sim-"):
             bs = vlib.printed_json(res.out)
-            want = NSCRIPTS if name == "scripts" else per
+            want = NSCRIPTS if name == "scripts" else NMATRIX if name == "matrix" else per
             m = re.search(r"The number of states generated: (\d+)", res.out)      # simulation mode prints no distinct count
             if m and not res.generated:
                 chk.cov["transitions"] += int(m.group(1))
@@ -108,6 +114,11 @@ def run(chk, args):
                 raise MachineryFault("TBTree[%s] printed %d behaviours, expected %d" % (name, len(bs), want))
             for b in bs:
                 b["origin"] = name if name != "scripts" else "script:" + "+".join(o["op"] for o in b["ops"][:6])
+            if name == "matrix":
+                ncases = sum(len(b["ops"][-1]["cases"]) + len(b["ops"][-1]["pages"]) for b in bs)
+                if ncases < 3 * 20000:
+                    raise MachineryFault("reader matrix has only %d cases" % ncases)
+                chk.cov["reader_matrix_cases"] = ncases
             behaviours += bs
     for name in ("mc-writer", "mc-snapshots", "mc-bulk"):
         if results[name].distinct < 1000:
@@ -162,6 +173,11 @@ def run(chk, args):
     rare = ["result:GetBetween:notfound-gap", "result:History:nomore", "result:History:outofrange",
             "result:GetWithPrefix:notfound-first-has-other-prefix", "result:Reader.ReadBetween:ok", "result:HistoryReader.Read:ok",
             "snapshot:stale-state", "reader:reset-mid-history", "probe:concurrent-reads"]
+    need += ["matrix:cases", "matrix:seek==prefix", "matrix:stored-key==prefix", "matrix:seek==prefix==stored-key,exclusive",
+             "matrix:end==prefix", "matrix:end==prefix==stored-key,exclusive", "matrix:seek-proper-prefix-of-prefix",
+             "matrix:prefix-proper-prefix-of-seek", "matrix:exclusive-seek-on-stored-key", "matrix:inclusive-seek-on-stored-key",
+             "matrix:exclusive-end-on-stored-key", "matrix:inclusive-end-on-stored-key", "matrix:empty-seek", "matrix:empty-prefix",
+             "matrix:offset", "matrix:include-history", "matrix:history-reader-cases", "matrix:read-between-cases"]
     missing = [k for k in need if ctr.get(k, 0) == 0]
     if missing:
         raise MachineryFault("vacuous replay, never reached: %s" % ", ".join(missing))
@@ -174,7 +190,8 @@ def run(chk, args):
         raise MachineryFault("%d of %d runs stopped because the real code decided differently from the model" % (div, r.get("traces", 0)))
 
     chk.cov["rule"] = ("behaviours = TLC -simulate walks (weighted operation table, 3- and 5-key universes with shared prefixes, "
-                       "probes between/beyond keys), 5 directed scripts and the counterexample of the pinned-code model; each is "
+                       "probes between/beyond keys), 5 directed scripts, 3 reader-matrix scripts (every reader specification over all "
+                       "strings of up to 2 symbols on a snapshot of a small tree) and the counterexample of the pinned-code model; each is "
                        "replayed on 6 configuration classes; after every step the real tree (Get+History of every key, full reader "
                        "scans in both directions on the current root, Ts) and every open snapshot are compared with the abstract state")
     chk.cov["exhaustive"] = False
